@@ -73,6 +73,7 @@ type sengine struct {
 	enter      func(callee *ssa.Function, args []iv) bool
 	onIf       func(p *spath, fr *sframe, x *ssa.If, cond iv) (stop bool, val iv, note string)
 	param      func(fn *ssa.Function, prm *ssa.Parameter) (iv, bool)
+	builtin    func(p *spath, fr *sframe, call *ssa.Call, name string, args []iv) (iv, bool)
 	outcomes   []soutcome
 	budget     int
 	problems   []string
@@ -252,6 +253,16 @@ func (e *sengine) doCall(p *spath, fr *sframe, x *ssa.Call) (stopped bool) {
 		if b.Name() == "len" && len(x.Call.Args) == 1 {
 			if a := e.val(fr, x.Call.Args[0]); a.k == 'a' {
 				fr.vals[x] = ivInt(int64(len(*a.arr)))
+				return false
+			}
+		}
+		if e.builtin != nil {
+			var args []iv
+			for _, a := range x.Call.Args {
+				args = append(args, e.val(fr, a))
+			}
+			if r, ok := e.builtin(p, fr, x, b.Name(), args); ok {
+				fr.vals[x] = r
 			}
 		}
 		return false
@@ -405,6 +416,9 @@ func (e *sengine) step(p *spath, fr *sframe, in ssa.Instruction) {
 	case *ssa.IndexAddr:
 		a, i := e.val(fr, x.X), e.val(fr, x.Index)
 		if a.k == 'a' && i.k == 'i' {
+			if i.i < 0 || int(i.i) >= len(*a.arr) {
+				p.notes["index-out-of-range"]++
+			}
 			fr.vals[x] = iv{k: 'e', arr: a.arr, idx: int(i.i)}
 		}
 	case *ssa.Slice:
